@@ -224,6 +224,7 @@ impl SourceView {
             let mut off = 0;
             let mut idx = 0;
             let mut char_iter = line.chars().peekable();
+            let end_col = (col as usize).saturating_add(span as usize);
 
             while let Some(&c) = char_iter.peek() {
                 if idx >= col as usize {
@@ -236,14 +237,14 @@ impl SourceView {
 
             let mut off_end = off;
             for c in char_iter {
-                if idx >= (col + span) as usize {
+                if idx >= end_col {
                     break;
                 }
                 off_end += c.len_utf8();
                 idx += c.len_utf16();
             }
 
-            if idx < ((col + span) as usize) {
+            if idx < end_col {
                 None
             } else {
                 line.get(off..off_end)
